@@ -69,5 +69,5 @@ func TestVerifC21Cluster(t *testing.T) {
 			return func(key string, count uint16) uint16 { return nodes[count].HashSlotForKey(key) }
 		}},
 	}
-	c21.Run(r, "cluster", comps, nil, c21.Options{KeysAllCountsQuick: 1024, KeysAllCountsThorough: 8192})
+	c21.Run(r, "cluster", comps, nil, c21.Options{KeysAllCountsQuick: 512, KeysAllCountsThorough: 8192})
 }
